@@ -421,6 +421,15 @@ func c12Bind(p c12Prog, ep c12EP) (c12Case, bool) {
 	}
 	if p.fault == "none" || p.fault == "midcancel" {
 		c.Want = want
+	} else if file {
+		// a catalogued failing program that returns nil all the same has still to
+		// deliver a complete document: at least the static frame of the outermost layout
+		switch ep.layout {
+		case "default", "chain":
+			c.Want = []string{"LB", "LM", "LEND"}
+		case "explicit":
+			c.Want = []string{"LP", "LS", "LPEND"}
+		}
 	}
 	return c, true
 }
